@@ -87,6 +87,10 @@ class Rename(DesignPart):
         E = ent_info(kit, ent)
         if E['kind'] == 'Library': raise Infeasible()                # the property is about non-library entities
         if E['decl'] is None or not E['decl'][0].startswith('/p/'): raise Infeasible()     # declared in std (or implicit): not a declaration of the design
+        if E['related'][0] == 'ImplicitOf' or (E['name'] is not None and chk.texts.text_at(E['decl']).lower() != E['name'].lower()):
+            # an implicit declaration (endfile of a file type, ...) borrows the position of the declaration that implies it: it has no text of its
+            # own to rename and is not among the renameable declarations the property lists
+            ctx.cover('implicit declaration skipped'); return None
         before_diags = sorted((obs_show(kit.diag_obs(d)[0]), kit.diag_obs(d)[1], len(kit.diag_obs(d)[2])) for d in pr.diagnostics)
         before_refs = self.refmap(kit, ctx, pr, D)
         srv = self.new_server(chk, pr)
@@ -260,6 +264,7 @@ class C09(Check):
         q = self.tier == 'quick'
         ds = [DS.D_RECORDS, DS.D_TREE, DS.D_GENERIC, DS.D_COMB, DS.D_ZOO, DS.MUT_DESIGN]
         if q: ds = [ds[self.seed % 6], ds[(self.seed + 2) % 6]]
+        ds = ds + [DS.D_MULTI]
         ps = [Rename('rename at an occurrence, edits applied, project re-analysed', ds, stride=6 if q else 1, offset=self.seed // 6 if q else 0,
                      required=('compared', 'three or more occurrences') + (() if q else ('occurrences in two files', 'operator symbol or character literal refused')))]
         self._parts = ps
@@ -267,7 +272,7 @@ class C09(Check):
 
     def assumptions(self):
         return ['environment stubs: file_name_to_uri / uri_to_file_name (a Url is its path), std::path::absolute and dunce::simplified (identity on absolute unix paths), Url::clone, WorkspaceEdit::default',
-                'valid designs only (the property is about projects without error diagnostics); new identifier of the same length as the old one so that coordinates are comparable; library entities are skipped',
+                'valid designs only (the property is about projects without error diagnostics); new identifier of the same length as the old one so that coordinates are comparable; library entities, entities declared in std and implicit declarations (e.g. endfile of a file type: no declaration text of their own) are skipped',
                 'messages are compared by length only (they quote the renamed identifier)',
                 'bundled std library; FnvHashMap modelled insertion ordered; rayon sequential']
 
